@@ -380,8 +380,40 @@ type patchGen struct {
 
 func jsonStr(s string) string { return quoteGo(s, false) }
 
-// genOp makes one operation against cur
+// genOp makes one operation against cur; in the awkward streams an operation sometimes lacks a
+// member it needs (value, from, path) or has it as null: the legacy DecodePatch validates nothing
 func (pg *patchGen) genOp(cur interface{}) string {
+	op := pg.genOp0(cur)
+	if pg.odd && chance(0.06) {
+		var m map[string]stdjson.RawMessage
+		if stdjson.Unmarshal([]byte(op), &m) == nil {
+			keys := []string{}
+			for k := range m {
+				if k != "op" {
+					keys = append(keys, k)
+				}
+			}
+			sortStrings(keys)
+			if len(keys) > 0 {
+				k := keys[rng.Intn(len(keys))]
+				if chance(0.7) {
+					delete(m, k)
+				} else {
+					m[k] = stdjson.RawMessage("null")
+				}
+				if chance(0.5) {
+					m["path"] = stdjson.RawMessage(`""`)
+				}
+				if b, err := stdjson.Marshal(m); err == nil {
+					return string(b)
+				}
+			}
+		}
+	}
+	return op
+}
+
+func (pg *patchGen) genOp0(cur interface{}) string {
 	kind := pg.kinds[rng.Intn(len(pg.kinds))]
 	g := pg.g
 	vg := g
